@@ -189,6 +189,8 @@ pub struct Node {
     pub transferee_seen: Option<u64>,
     /// ghost: in-flight window capacity last requested per peer (C18: a resize must not get lost)
     pub want_cap: BTreeMap<u64, usize>,
+    /// Ready number whose persistence raft has not been told about yet (deferred notification)
+    pub pending_notify: Option<u64>,
 }
 
 impl Node {
@@ -409,6 +411,7 @@ impl World {
                     ticks_as_leader_with_transferee: 0,
                     transferee_seen: None,
                     want_cap: BTreeMap::new(),
+                    pending_notify: None,
                 },
             );
         }
@@ -744,6 +747,7 @@ impl World {
         node.ghost_uncommitted.clear();
         node.transferee_seen = None;
         node.want_cap.clear();
+        node.pending_notify = None;
         if node.obs.commit < node.max_commit_ever {
             node.reloaded_lower_commit = true;
         }
@@ -897,7 +901,7 @@ impl World {
                 let wq_end = node.disk.wq_end();
                 node.outstanding.push_back(Outstanding { number, msgs: persisted_msgs, wq_end });
                 // nothing queued at all => already durable
-                self.complete_persisted(n)?;
+                self.complete_persisted(n, false)?;
             }
             Mode::Sync | Mode::SyncLazy => {
                 self.bump("rounds_sync");
@@ -910,6 +914,7 @@ impl World {
                     self.bump("fsync_skipped");
                 }
                 // release held messages of earlier async readies, in order
+                self.nodes.get_mut(&n).unwrap().pending_notify = None; // advance_append below reports every Ready as persisted
                 let held: Vec<Outstanding> = self.nodes.get_mut(&n).unwrap().outstanding.drain(..).collect();
                 for o in held {
                     self.release(n, o.msgs, false)?;
@@ -956,7 +961,7 @@ impl World {
     }
 
     /// Release persisted messages of async readies whose writes are durable and notify raft.
-    fn complete_persisted(&mut self, n: NodeId) -> VResult<()> {
+    fn complete_persisted(&mut self, n: NodeId, defer: bool) -> VResult<()> {
         let mut done: Vec<Outstanding> = Vec::new();
         {
             let node = match self.nodes.get_mut(&n) {
@@ -982,10 +987,34 @@ impl World {
         for o in done {
             self.release(n, o.msgs, false)?;
         }
+        if defer {
+            let node = self.nodes.get_mut(&n).unwrap();
+            node.pending_notify = Some(node.pending_notify.unwrap_or(0).max(number));
+            self.bump("persist_notifications_deferred");
+            return Ok(());
+        }
+        let number = {
+            let node = self.nodes.get_mut(&n).unwrap();
+            number.max(node.pending_notify.take().unwrap_or(0))
+        };
         self.call(n, CallKind::OnPersist { number }, move |raw| {
             raw.on_persist_ready(number);
             Ok(())
         })?;
+        Ok(())
+    }
+
+    fn notify(&mut self, n: NodeId) -> VResult<()> {
+        let number = match self.nodes.get_mut(&n) {
+            Some(x) if x.raw.is_some() => x.pending_notify.take(),
+            _ => None,
+        };
+        if let Some(number) = number {
+            self.call(n, CallKind::OnPersist { number }, move |raw| {
+                raw.on_persist_ready(number);
+                Ok(())
+            })?;
+        }
         Ok(())
     }
 
@@ -1109,7 +1138,7 @@ impl World {
         Ok(())
     }
 
-    fn fsync(&mut self, n: NodeId, count: u32) -> VResult<()> {
+    fn fsync(&mut self, n: NodeId, count: u32, defer: bool) -> VResult<()> {
         {
             let node = match self.nodes.get_mut(&n) {
                 Some(x) if x.raw.is_some() => x,
@@ -1123,7 +1152,7 @@ impl World {
                 self.bump("fsyncs");
             }
         }
-        self.complete_persisted(n)
+        self.complete_persisted(n, defer)
     }
 
     fn compact(&mut self, n: NodeId, back: u64) -> VResult<()> {
@@ -1209,7 +1238,8 @@ impl World {
                 }
             }
             Action::AppReady { n, mode, skip_fsync, force } => self.app_ready(*n, *mode, *skip_fsync, *force)?,
-            Action::Fsync { n, count } => self.fsync(*n, *count)?,
+            Action::Fsync { n, count, defer } => self.fsync(*n, *count, *defer)?,
+            Action::Notify { n } => self.notify(*n)?,
             Action::Apply { n, count } => self.apply_entries(*n, *count, true)?,
             Action::Propose { n, id, size } => {
                 let data = new_entry_payload(*id, *size);
@@ -1404,6 +1434,7 @@ impl World {
             Action::Dup { k } => (4, k.t),
             Action::AppReady { n, mode, .. } => (5 + *mode as u64, *n),
             Action::Fsync { n, .. } => (9, *n),
+            Action::Notify { n } => (32, *n),
             Action::Apply { n, .. } => (10, *n),
             Action::Propose { n, .. } => (11, *n),
             Action::ProposeBatch { n, .. } => (31, *n),
